@@ -13,6 +13,11 @@ What is read off the source (Python `ast`), fail-closed:
                                           | `W1 if transformation.negative else W2` (RelByNegation: W1 -> rel_all_neg /
                                           rel_any_neg, W2 -> rel_and / rel_or).  The four words are exported as they are in the
                                           source; that W1 of all_of is the word of any_of (De Morgan) is a theorem, not a pin.
+      composites._build_single_line_description_if_suitable : its "an operand is a composite" test is
+                                          isinstance(matcher, (AllOf, AnyOf))  (SlObjectTest: single_line_sees_through_of_source = false)
+                                          | _is_composite(matcher)  (SlSeesThrough: = true), and then composites._is_composite must
+                                          exist with the pinned shape (looks through Not and through a MatcherWrapper whose
+                                          description is NotImplemented; MatcherWrapper.__init__ is pinned for that default)
 How: every function listed in SPEC is located, its AST is normalised (string constants and integer constants > 1 replaced
 by placeholders, docstrings dropped), the dump is hashed and compared with the recorded shape(s); the constants, in source
 order, are bound to the names given in SPEC.  Any function that moved, changed shape or changed its number of constants
@@ -127,6 +132,7 @@ SPEC = [
     ("matcher.py", "MatcherDescriptionTransformer.__init__", []),
     ("matcher.py", "MatcherDescriptionTransformer.__call__",
      ["reg_pattern", "reg_conj_neg_prefix", "reg_conj_suffix", "reg_neg_prefix", "_reg_unreachable"]),
+    ("matcher.py", "MatcherWrapper.__init__", []),
     ("matcher.py", "MatcherWrapper.build_description", []),
     ("matcher.py", "Matcher.override_description", []),
     ("matcher.py", "Matcher.hide_result_details", []),
@@ -144,6 +150,7 @@ SPEC = [
     ("matchers/composites.py", "present", ["w_present"]),
     ("matchers/composites.py", "is_", []),
     ("matchers/composites.py", "not_", []),
+    ("matchers/composites.py", "Not.__init__", []),
     ("matchers/composites.py", "Not.build_description", []),
     ("matchers/value.py", "EqualTo.build_description", ["tpl_equal_to"]),
     ("matchers/value.py", "_Comparator.build_description", ["tpl_comparator"]),
@@ -184,6 +191,13 @@ SPEC = [
     ("../helpers/text.py", "jsonify", []),
 ]
 
+# functions that exist only in some variants of the source: (file, qualname, names, lambda variants: required?)
+CONDITIONAL = [
+    ("matchers/composites.py", "_is_composite", [],
+     lambda variants: variants["_build_single_line_description_if_suitable"] == "SlSeesThrough"),
+]
+
+
 def load_shapes():
     p = os.path.join(os.path.dirname(os.path.abspath(__file__)), "matchers_shapes.py")
     ns = {}
@@ -208,6 +222,11 @@ def current_shapes(repo):
     for f, qual, names in SPEC:
         node = find(trees[f], qual)
         res[(f, qual)] = shape_of(node)
+    for f, qual, names, _ in CONDITIONAL:
+        try:
+            res[(f, qual)] = shape_of(find(trees[f], qual))
+        except Exception:
+            res[(f, qual)] = None          # absent
     return res
 
 
@@ -248,6 +267,19 @@ def generate(repo):
                 if n in vals:
                     _terror("duplicate table entry " + n)
                 vals[n] = c
+    for f, qual, names, required in CONDITIONAL:
+        known = shapes.get("%s:%s" % (f, qual)) or {}
+        if required(variants):
+            if cur[(f, qual)] is None:
+                _terror("%s:%s not found although the source refers to it" % (f, qual))
+            h, consts = cur[(f, qual)]
+            if h not in known:
+                _terror("%s:%s has an unrecognised shape %s (known: %s)" % (f, qual, h, ", ".join(sorted(known))))
+            if len(consts) != len(names):
+                _terror("%s:%s has %d constants, %d expected" % (f, qual, len(consts), len(names)))
+    sl = variants["_build_single_line_description_if_suitable"]
+    if sl not in ("SlObjectTest", "SlSeesThrough"):
+        _terror("_build_single_line_description_if_suitable: unknown variant %r" % (sl,))
     # a composite whose build_description has a single relationship word uses it under every transformer
     for neg, pos, qual in (("rel_all_neg", "rel_and", "AllOf.build_description"), ("rel_any_neg", "rel_or", "AnyOf.build_description")):
         if variants[qual] == "RelOneWord":
@@ -299,13 +331,16 @@ def generate(repo):
     out.append("(* operations._format_result_details and composites.Not.build_description as they are in the source now *)")
     out.append("Definition frd_of_source : frd_impl := %s." % variants["_format_result_details"])
     out.append("Definition not_of_source : not_impl := %s." % variants["Not.build_description"])
+    out.append("(* composites._build_single_line_description_if_suitable: does its composite-operand test look through Not and "
+               "through description-less wrappers (composites._is_composite)? *)")
+    out.append("Definition single_line_sees_through_of_source : bool := %s." % ("true" if sl == "SlSeesThrough" else "false"))
     return {"TablesMatchers.v": "\n".join(out) + "\n"}
 
 
 if __name__ == "__main__":
     repo = sys.argv[2] if len(sys.argv) > 2 else os.environ.get("VERIF_REPO", "/repo")
     if len(sys.argv) > 1 and sys.argv[1] == "--shapes":
-        for (f, qual), (h, consts) in current_shapes(repo).items():
-            print("%s:%s %s %r" % (f, qual, h, consts))
+        for (f, qual), hc in current_shapes(repo).items():
+            print("%s:%s %s" % (f, qual, "absent" if hc is None else "%s %r" % hc))
     else:
         print(generate(repo)["TablesMatchers.v"])
